@@ -232,7 +232,7 @@ func uniq(xs []int, lo, hi int) []int {
 // inserted / removed at every kind of position, every relation between what remains and the capacity.
 // Every case is checked by the direct oracle; a small deterministic sample also goes to the Coq model.
 func heavy(c *core.Ctx) {
-	budget := c.N(160000, 1500000, 0) // numbers in the arrays of the sampled cases (Coq time)
+	budget := c.N(50000, 400000, 0) // numbers in the arrays of the sampled cases (Coq time)
 	sample := func(cs Case) bool {
 		cost := 2*cs.Cap + 2*cs.NVals + 2*cs.Cap2 + cs.K + 8
 		if cs.Fn == "Repeat" {
